@@ -22,7 +22,7 @@ ENV_MALFORMATIONS = [
 NENVWF = len(ENV_MALFORMATIONS)
 ROLE_SPELLINGS = {"root": ["root"], "key_mgr": ["key_mgr"],
                   "pkg_mgr": ["pkg_mgr", "channeler", "root.json", "Root", "key_mgr ", "ключ"]}
-STDOUT_ENCODINGS = ["utf-8"] * 5 + ["ascii", "ascii", "latin-1", "cp1252", "cp437"]
+STDOUT_ENCODINGS = ["utf-8"] * 10 + ["ascii", "ascii", "ascii", "latin-1", "latin-1", "cp1252", "cp1252", "cp437", "cp437"] + lib.BROKEN_STDOUTS
 BAD_ROLE_ARGS = [5, None, b"root", ["root"], ("key_mgr",), 1.5]
 BAD_GPG_ARGS = ["yes", None, 2, [], "True", -1]
 SIGNED_MALFORMATIONS = [i + 1 for i, m in enumerate(metadata.MALFORMATIONS) if m[1] == "signed"]
@@ -32,6 +32,7 @@ def concretise(case, r, seed):
     nk = len(case["e"])
     keys = ve._keys(nk, seed)
     allkeys = [keys.pub[k] for k in range(1, nk + 1)]
+    metadata.SHADOW_POOL = list(allkeys)
     role = r.choice(ROLE_SPELLINGS[case["role"]])
     others = [x for x in ("root", "key_mgr", "pkg_mgr", "channeler") if x != role]
     # trusted side
@@ -43,6 +44,8 @@ def concretise(case, r, seed):
     if case["drule"]:
         for o in others[: r.randint(1, 3)]:
             dels[o] = metadata.rule(list(allkeys), 1)
+    if r.random() < 0.25:
+        dels.update({k: v for k, v in metadata.unusual_roles(r, allkeys[0]).items() if k != role})
     pad = r.random() < 0.004       # scale: now and then well over a thousand further (well-formed) delegations on either side
     if pad:
         for i in range(r.choice([1021, 1100, 1500])):
@@ -62,6 +65,8 @@ def concretise(case, r, seed):
         if pad or r.random() < 0.004:
             for i in range(r.choice([1021, 1100, 1500])):
                 udels["zz-pad-%04d" % i] = metadata.rule([], 1)
+        if r.random() < 0.3:
+            udels.update(metadata.unusual_roles(r, allkeys[-1]))
         ver = r.choice([1, 2, 99]) if (case["utype"] == "root" or r.random() < .7) else None
         P = metadata.delegating_doc(case["utype"], ver, udels, r, tag="untrusted")
         if case["ukind"] == "delegish":
@@ -78,6 +83,8 @@ def concretise(case, r, seed):
             untrusted = [untrusted]
         else:
             fn(untrusted)
+    if r.random() < 0.3 and isinstance(untrusted, dict) and isinstance(untrusted.get("signed"), (dict, list)):
+        untrusted["signed"] = gamma.share_equal_parts(untrusted["signed"], trusted, r, 0.8)      # aliasing between the two arguments
     role_arg = role if case["argbad"] != "role" else r.choice(BAD_ROLE_ARGS)
     gpg_arg = case["gpg"] if case["argbad"] != "gpg" else r.choice(BAD_GPG_ARGS)
     return role_arg, untrusted, trusted, gpg_arg
@@ -94,6 +101,7 @@ def run_one(case, r, seed, variant="main"):
     except TypeError:
         mutated = repr(untrusted) != repr(snap[0]) or repr(trusted) != repr(snap[1])
     return {"variant": variant, "observed": out, "exc": exc, "allowed": case["allowed"], "mutated": mutated, "stdout_encoding": enc,
+            "unjudged": enc.startswith("broken:") and out != "accept",      # with a dead stdout only a wrongful acceptance is judged
             "concrete": {"role": role if isinstance(role, (str, int, float, type(None), list)) else repr(role),
                          "untrusted": snap[0], "trusted": snap[1],
                          "gpg": gpg if isinstance(gpg, (bool, str, int, type(None), list)) else repr(gpg)},
@@ -123,6 +131,8 @@ def _work(args):
         for o in obs:
             res["n"] += 1
             res["accepts"] += o["observed"] == "accept"
+            if o.get("unjudged"):
+                continue
             if lib.family(o["observed"]) not in o["allowed"] or o.get("mutated"):
                 res["bad"].append(o)
         trivial = all(v[0] == "absent" for v in case["e"]) and case["alt"][0] == "absent" and case["junk"][0] == "absent"
